@@ -39,6 +39,8 @@ func (w *World) Focus(fn *ssa.Function) {
 	w.focus = fn
 }
 
+func (w *World) restoreFocus(fn *ssa.Function) { w.focus = fn }
+
 // ExprIn renders v in the frame of fn (fn's parameters symbolic, its helpers' parameters resolved).
 func (w *World) ExprIn(fn *ssa.Function, v ssa.Value) string {
 	old := w.focus
@@ -274,6 +276,33 @@ func (w *World) onlyVia(root, fn *ssa.Function, d int) bool {
 		}
 	}
 	return true
+}
+
+// failurePropagates: g is root, or g's error result at its single call site in Tree(root) ends the caller with a
+// non-nil error, and so on up to root.
+func (w *World) failurePropagates(root, g *ssa.Function) bool {
+	for hop := 0; hop < 4; hop++ {
+		if g == root {
+			return true
+		}
+		sites := w.sitesIn(root, g)
+		if len(sites) != 1 || errorResultIndex(g) < 0 {
+			return false
+		}
+		cv, ok := sites[0].(*ssa.Call)
+		if !ok {
+			return false
+		}
+		var ev ssa.Value = cv
+		if g.Signature.Results().Len() > 1 {
+			ev = extractOf(cv, errorResultIndex(g))
+		}
+		if ev == nil || !w.ErrEdgeEnds(cv.Parent(), ev) {
+			return false
+		}
+		g = cv.Parent()
+	}
+	return false
 }
 
 // sitesIn: the static call sites of g located in Tree(root).
@@ -534,6 +563,9 @@ func (w *World) outcomeReturns(h *ssa.Function, idx int, wantNil, nilKind bool, 
 			if _, ok := boolConst(rv); !ok {
 				extra[r] = Lit{throughCell(strip(rv)), pol}
 			}
+		} else if cv := throughCell(strip(rv)); !isNilConst(cv) {
+			// the returned value itself is then nil / non-nil (a literal over a non-boolean value states V != nil)
+			extra[r] = Lit{cv, !wantNil}
 		}
 	}
 	return rets, extra
@@ -610,6 +642,36 @@ func (w *World) closeDown(out map[Lit]bool) {
 		}
 		delete(w.ndBusy, h)
 		from[h] = call
+		// the other results of the same call: non-nil (nil) when every compatible return yields a non-nil (nil) value
+		if refs := call.Referrers(); refs != nil && acc != nil {
+			for _, ref := range *refs {
+				ex, ok := ref.(*ssa.Extract)
+				if !ok || ex.Index == idx {
+					continue
+				}
+				if _, basic := ex.Type().Underlying().(*types.Basic); basic {
+					continue
+				}
+				allNonNil, allNil := true, true
+				for _, r := range rets {
+					if ex.Index >= len(r.Results) {
+						allNonNil, allNil = false, false
+						break
+					}
+					if !w.NonNil(r.Results[ex.Index], w.noUp(r.Block())) {
+						allNonNil = false
+					}
+					if !isNilConst(throughCell(strip(r.Results[ex.Index]))) {
+						allNil = false
+					}
+				}
+				if allNonNil {
+					acc[Lit{ex, true}] = true
+				} else if allNil {
+					acc[Lit{ex, false}] = true
+				}
+			}
+		}
 		var added []Lit
 		for k := range acc {
 			if !out[k] {
